@@ -68,7 +68,8 @@ def run_c15(it):
             opts = {"inner_dist": "euclidean"}
             if f.get("window"):
                 opts["window"] = f["window"]
-        maxd = float("inf") if f["maxdist"] < 0 else float(f["maxdist"]) + 0.5
+        # threshold between two attainable distances (+0.5) or EXACTLY an attainable one ("within max_dist" is <=)
+        maxd = float("inf") if f["maxdist"] < 0 else float(f["maxdist"]) + (0.0 if f.get("exact") else 0.5)
 
         def hook(frm, to, dist, _f=f):
             # (HierarchicalTree ignores the value returned by the user's hook: no side swapping there)
@@ -81,8 +82,9 @@ def run_c15(it):
         if f.get("order") == "last":
             def order(idxs):
                 return idxs[-1, :]
-        route = "fit#%d:%s[%s%s%s%s]" % (fi, kind, f["source"], ",swap" if f.get("swap") else "",
-                                        ",order=last" if order else "", ",reuse" if f.get("reuse") else "")
+        route = "fit#%d:%s[%s%s%s%s%s%s]" % (fi, kind, f["source"], ",swap" if f.get("swap") else "",
+                                            ",order=last" if order else "", ",reuse" if f.get("reuse") else "",
+                                            ",exact" if f.get("exact") else "", ",only_triu" if f.get("only_triu") else "")
         try:
             key = (kind, f["source"], f.get("swap"), f.get("order")) if kind != "tree" else (kind, f["source"])
             if kind == "hier":
@@ -114,7 +116,10 @@ def run_c15(it):
                 maxd = float("inf")
             else:
                 from scipy.cluster.hierarchy import linkage
-                model = H.LinkageTree(fun, dict(opts), method=f.get("method", "complete"))
+                lopts = dict(opts)
+                if f.get("only_triu"):
+                    lopts["only_triu"] = True        # the matrix handed over is then NOT symmetric
+                model = H.LinkageTree(fun, lopts, method=f.get("method", "complete"))
                 got = model.fit(series)
                 m = captured[-1]
                 cond = [m[r, c] for r in range(n) for c in range(r + 1, n)]
